@@ -67,6 +67,30 @@ def r1_exit_status(ctx):
             ctx.ok("run-only-when-clean", rs.where(c.block), "the program runs only after a clean parse and a clean resolve")
         else:
             ctx.bad("run-only-when-clean", rs.where(c.block), "run_with_analysis is reachable although the front end produced error diagnostics (%s)" % cons)
+    # ... and whatever the CLI reports as a failure on stderr ends in FAILURE: in every function of the CLI that returns an
+    # ExitCode, a SUCCESS constant is not returned from a block that an error print dominates (a failed arena
+    # initialisation that exits 0 tells the caller the script ran)
+    k = 0
+    for fid, f in sorted(ctx.bin.fns.items()):
+        if "ExitCode" not in f.locals[0]["ty"]:
+            continue
+        eprints = [c for c in f.calls() if (c.callee or "").endswith("io::_eprint")]
+        if not eprints:
+            continue
+        ctx.touch(f)
+        for b in sorted(f.live):
+            for st in f.blocks[b]["s"]:
+                if st["lhs"]["l"] == 0 and not st["lhs"]["p"]:
+                    val = sh(ne(f.deep_rvalue(st["rv"])))
+                    after = [c for c in eprints if f.dominates(c.block, b)]
+                    if not after:
+                        continue
+                    k += 1
+                    if val.endswith("SUCCESS"):
+                        ctx.bad("error-reported-exit-0|%s" % parent_fn(fid).split("::")[-1], f.where(b), "%s prints an error on stderr and then returns ExitCode::SUCCESS: the failure is invisible to whoever looks at the exit status" % parent_fn(fid).split("::")[-1])
+                    else:
+                        ctx.ok("error-reported-exit-nonzero|%s#%d" % (parent_fn(fid).split("::")[-1], k), f.where(b), "FAILURE after the error message")
+    ctx.floor("returns of the CLI that follow an error message", k, 2)
     # has_errors counts exactly Severity::Error (lib)
     he = ctx.lib.fns.get("diagnostics::Diagnostics::has_errors")
     if he is not None:
@@ -498,7 +522,49 @@ def r10_script_arguments_accept_every_text(ctx):
     ctx.floor("value parsers of the top-level CLI arguments", n, 2)
 
 
-RULES = [("C14-R1", r1_exit_status), ("C14-R2", r2_same_wiring), ("C14-R2b", r2b_cli_prints_the_library_rendering), ("C14-R2c", r2c_routes_are_labelled_apart), ("C14-R3", r3_scratch_rule), ("C14-R4", r4_global_state), ("C14-R5", r5_report_gets_the_text_it_parsed), ("C14-R6", r6_errors_anywhere_count), ("C14-R7", r7_scratch_arenas_get_the_configured_capacity), ("C14-R8", r8_every_route_runs_the_text_it_was_given), ("C14-R9", r9_shout_prints_the_value_it_records), ("C14-R10", r10_script_arguments_accept_every_text)]
+def r11_the_shared_arenas_are_not_wasted(ctx):
+    """The CLI runs the program's frames on top of what the resolver left in the shared scratch arena, the library pipeline
+    gives each stage an arena of its own: memory the analyses reserve without needing it is memory the program lacks only in
+    the CLI.  Shared with C18-R7 (bit sets are sized *and reserved* in words of the local count) and C07-R10 (front-end memory
+    is linear in what it describes)."""
+    from .c18 import r7_bit_sets_are_sized_in_words
+    from .c07 import r10_front_end_memory_is_linear
+    r7_bit_sets_are_sized_in_words(ctx)
+    r10_front_end_memory_is_linear(ctx)
+
+
+def r12_the_cli_locates_what_the_library_found(ctx):
+    """The library hands over byte spans; the line and column the CLI prints for them come from the line table.  Shared with
+    C07-R5 / R5d (the table starts at 0, has one entry per line break of any kind, and the scan resumes where it recorded)."""
+    from .c07 import r5_renderer_boundaries, r5d_the_line_table_and_its_scan_agree
+    r5_renderer_boundaries(ctx)
+    r5d_the_line_table_and_its_scan_agree(ctx)
+
+
+def r3b_one_scratch_borrow_at_a_time_for_the_run(ctx):
+    """The CLI has two scratch arenas.  The resolver borrows the second one for its working memory and for the rendered
+    warnings; the runtime borrows *the same one* for its frames.  With separate arenas (the library pipeline) the frame has its
+    whole capacity; in the CLI it has that only if the resolver's borrow has been released - dropped - before the frame's
+    borrow is taken.  Otherwise everything the resolver and the warnings left behind stays as dead weight under the frames, and
+    a program that runs in the isolated configuration aborts in the CLI."""
+    rs = ctx.need("cmd::run_source", ctx.bin)
+    ctx.touch(rs)
+    sc = [c for c in rs.calls() if (c.callee or "").endswith("scratch_arena") and c.dest is not None and not c.dest["p"]]
+    if len(sc) < 2:
+        ctx.bad("scratch-borrows|count|%d" % len(sc), rs.where(), "run_source no longer takes a resolver borrow and a frame borrow of the scratch arena")
+        return
+    sc.sort(key=lambda c: len(rs.dominators(c.block)))
+    res, frame = sc[0], sc[-1]
+    l = res.dest["l"]
+    drops = [b for b in sorted(rs.live) if rs.blocks[b]["t"]["k"] == "drop" and rs.blocks[b]["t"]["of"]["l"] == l and not rs.blocks[b]["t"]["of"]["p"]]
+    released = any(rs.dominates(b, frame.block) for b in drops)
+    if released:
+        ctx.ok("scratch-borrows|resolver-released-before-frame", rs.where(frame.block), "the resolver's ScratchArena is dropped on every path to the frame's scratch_arena call")
+    else:
+        ctx.bad("scratch-borrows|resolver-still-held", rs.where(frame.block), "run_source takes the frame's borrow of the scratch arena while the resolver's borrow of the same arena is still alive (it is dropped at the end of the block, after the run): the resolver's working memory and the rendered warnings stay under the runtime's frames, so a program that fits the frame arena of the isolated configuration aborts with `memory allocation failed` in the CLI")
+
+
+RULES = [("C14-R1", r1_exit_status), ("C14-R2", r2_same_wiring), ("C14-R2b", r2b_cli_prints_the_library_rendering), ("C14-R2c", r2c_routes_are_labelled_apart), ("C14-R3", r3_scratch_rule), ("C14-R3b", r3b_one_scratch_borrow_at_a_time_for_the_run), ("C14-R4", r4_global_state), ("C14-R5", r5_report_gets_the_text_it_parsed), ("C14-R6", r6_errors_anywhere_count), ("C14-R7", r7_scratch_arenas_get_the_configured_capacity), ("C14-R8", r8_every_route_runs_the_text_it_was_given), ("C14-R9", r9_shout_prints_the_value_it_records), ("C14-R10", r10_script_arguments_accept_every_text), ("C14-R11", r11_the_shared_arenas_are_not_wasted), ("C14-R12", r12_the_cli_locates_what_the_library_found)]
 
 EXPLANATION = (
     "R1: every return of cmd::run_source that yields ExitCode::SUCCESS is edge-dominated by 'no parse diagnostics', 'no "
